@@ -83,12 +83,16 @@ struct hilbert {
         std::size_t x = c[0];
         std::size_t y = c[1];
 
-        // TODO: `sizes[0]` has to equal `sizes[1]`.
-        for (s = sizes[0] / 2; s > 0; s /= 2) {
+        // The curve covers a square whose side is the largest extent rounded
+        // up to a power of two; this matches the storage allocated for it.
+        const std::size_t n =
+            utility::round_pow2(*std::max_element(sizes.begin(), sizes.end()));
+
+        for (s = n / 2; s > 0; s /= 2) {
             rx = (x & s) > 0;
             ry = (y & s) > 0;
             d += s * s * ((3 * rx) ^ ry);
-            rot(sizes[0], &x, &y, rx, ry);
+            rot(n, &x, &y, rx, ry);
         }
 
         return d;
